@@ -452,6 +452,7 @@ func c05(c *Ctx) {
 	c05Merge(c)
 	c05Snapshots(c)
 	c05PooledBuffers(c)
+	c05SerialisedUnmodified(c)
 }
 
 // reviewed dynamic origins: (enclosing function substring, origin description substring) -> reason
